@@ -194,6 +194,23 @@ def parse_sig_packet(pkt):
     return body[1:], body[0]
 
 
+def signed_message_maker(d, alg, ipriv, keyid, fpr, fmt, body, st, hv, n):
+    """one-pass + literal + signature written by the independent signer over `body` (RFC 4880 5.2.4: the literal's octets as
+    they are; canonical text form for type 0x01).  Returns assemble(body2=body, fmt2=fmt) -> message octets carrying the SAME
+    signature around a (possibly different) literal body."""
+    hashed = area([subpacket(2, (1600100000 + n).to_bytes(4, 'big')), subpacket(33, b'\x04' + fpr)])
+    unhashed = area([subpacket(16, keyid)])
+    data = model_hashdata(d, 4, st, alg, hv, hashed, ('doc', body), rfc=True)
+    mp = indep_sign(alg, ipriv, hv, data)
+    sb = sig_body(st, alg, hv, hashed, unhashed, digest(hv, data)[:2], mp)
+    ops = bytes([3, st, hv, alg]) + keyid + b'\x01'
+
+    def assemble(body2=body, fmt2=fmt):
+        lit = bytes([ord(fmt2), 3]) + b'f.x' + (1600000000).to_bytes(4, 'big') + body2
+        return new_header(4, len(ops)) + ops + new_header(11, len(lit)) + lit + sig_packet(sb)
+    return assemble
+
+
 # ---------- model calls ----------
 def subj_args(s):
     """('doc', b) | ('key', kb) | ('uid', kb, u) | ('uattr', kb, ua) | ('subkey', pb, sb) -> driver words"""
@@ -248,12 +265,13 @@ def check_pins(ctx, pins):
 
 
 def sig_pins(pgpy):
-    from pgpy.pgp import PGPSignature, PGPKey
+    from pgpy.pgp import PGPSignature, PGPKey, PGPMessage
     from pgpy.packet.fields import SubPackets, RSAPub, DSAPub, ECDSAPub, EdDSAPub, DSASignature, EdDSASignature
     from pgpy.packet.packets import SignatureV4
     return [
         ('PGPSignature.hashdata', PGPSignature.hashdata, PIN.get('PGPSignature.hashdata')),
         ('PGPKey.verify', PGPKey.verify, PIN.get('PGPKey.verify')),
+        ('PGPMessage._signed_data', getattr(getattr(PGPMessage, '_signed_data', None), 'fget', None), PIN.get('PGPMessage._signed_data')),
         ('SubPackets.parse', SubPackets.parse, PIN.get('SubPackets.parse')),
         ('SubPackets.__hashbytearray__', SubPackets.__hashbytearray__, PIN.get('SubPackets.__hashbytearray__')),
         ('SubPackets.__setitem__', SubPackets.__setitem__, PIN.get('SubPackets.__setitem__')),
@@ -270,7 +288,8 @@ def sig_pins(pgpy):
 
 
 PIN = {'PGPSignature.hashdata': '2981eddc50082cba',
-       'PGPKey.verify': '6522905d6508d47c',
+       'PGPKey.verify': 'b4ccb00a9d710ba8',
+       'PGPMessage._signed_data': '1902d60c80829d4b',
        'SubPackets.parse': '1265ea5b5c258ce1',
        'SubPackets.__hashbytearray__': '9409a500cab97232',
        'SubPackets.__setitem__': 'b326059a02237a59',
